@@ -23,6 +23,12 @@ def _decompose(lia, bits_t):
 
 def wrong_formula(man, e10, ef_val, frac):
     """z3 formula over Int man, frac: M*2^E (ef fixed) is NOT the correctly rounded value of man*10^e10"""
+    return wrong_formula_q(man * (10 ** max(e10, 0)), 10 ** max(-e10, 0), ef_val, frac)
+
+
+def wrong_formula_q(num, den, ef_val, frac):
+    """M*2^E (exponent field ef_val, fraction frac) is NOT the binary64 nearest (ties to even) to the
+    non-negative rational num/den (num: z3 Int expression, den: positive integer constant)"""
     if ef_val == 0x7FF:
         return z3.BoolVal(True)
     if ef_val == 0:
@@ -31,11 +37,9 @@ def wrong_formula(man, e10, ef_val, frac):
     else:
         M = frac + (1 << 52)
         E = ef_val - 1075
-    A = 4 * (10 ** max(e10, 0)) * (2 ** max(-E, 0))
-    B = (10 ** max(-e10, 0)) * (2 ** max(E, 0))
-    x4 = man * A                      # 4*x scaled
+    x4 = num * (4 * (2 ** max(-E, 0)))
+    B = (2 ** max(E, 0)) * den
     odd = (frac % 2 == 1)
-    # lower midpoint: normally (4M-2)*2^E; at a binade boundary (frac == 0, ef > 1) the spacing below halves
     if ef_val > 1:
         lowmid = z3.If(frac == 0, (4 * M - 1) * B, (4 * M - 2) * B)
         low_incl = z3.Or(frac == 0, z3.Not(odd))
